@@ -310,7 +310,7 @@ def pyIndex (len : Nat) (i : Int) : Except Err Nat :=
 def intoRangeLoop (stop : Nat) : Circuit → Nat → List Op → Except Err (Circuit × List Op)
   | ms, _, [] => .ok (ms, [])
   | ms, i, o :: os =>
-    let skipped := ((ms.drop i).take (stop - i)).takeWhile (fun m => operatesOn m o.qubits)
+    let skipped := ((ms.drop i).take (stop - i)).takeWhile (fun m => conflicts m o)
     let i := i + skipped.length
     if i ≥ stop then .ok (ms, o :: os)
     else match ms[i]? with
@@ -380,8 +380,9 @@ def batchInsertStep (acc : CState × Int) (g : Int × List (List Mop)) : Except 
   let insertIndex := g.1 + acc.2
   match insert acc.1 insertIndex (g.2.reverse.flatten) .earliest with
   | .error e => .error e
-  | .ok (cur', next) =>
-    .ok (cur', if (next : Int) > insertIndex then acc.2 + (next - insertIndex) else acc.2)
+  | .ok (cur', _) =>
+    -- only the moments the insert created move the later insertion points
+    .ok (cur', acc.2 + ((cur'.moments.length : Int) - acc.1.moments.length))
 
 /-- `Circuit.batch_insert` -/
 def batchInsert (st : CState) (ins : List (Int × List Mop)) : Except Err CState :=
@@ -456,15 +457,11 @@ def nextMomentOperatingOn (c : Circuit) (qs : List Nat) (start : Nat) : Option N
   | some i => some (start + i)
   | none => none
 
-/-- `prev_moment_operating_on(qubits, end_moment_index=e)` with the default `max_distance`.
-Mirrors the code: `max_distance = len`; when `e > len` both `e` and `max_distance` are reduced by
-`e - len` (so fewer than all moments are searched — the code's behaviour, kept as is). -/
+/-- `prev_moment_operating_on(qubits, end_moment_index=e)` with the default `max_distance` (no limit): the latest
+moment before `e` (clamped to the length) that touches one of the qubits -/
 def prevMomentOperatingOn (c : Circuit) (qs : List Nat) (e : Nat) : Option Nat :=
-  let len := c.length
-  let e' := min e len
-  let maxd : Int := if e > len then (len : Int) - ((e : Int) - len) else len
-  if maxd ≤ 0 then none
-  else match (((c.take e').reverse.take maxd.toNat).findIdx? (fun m => operatesOn m qs)) with
+  let e' := min e c.length
+  match ((c.take e').reverse.findIdx? (fun m => operatesOn m qs)) with
     | some i => some (e' - 1 - i)
     | none => none
 
